@@ -256,6 +256,7 @@ def handle (toks : List String) : String :=
   | "rt" :: _ => "ok"
   | "rtx" :: _ => "ok"
   | "probe" :: _ => "ok"
+  | "proj" :: _ => "ok"
   | _ => "bad-op"
 
 end ArrowModel.C04
